@@ -21,6 +21,7 @@ CheckEnc(e) ==
   ELSE IF ~Same(r.g, e.g) THEN "encoding-is-not-the-geometry"
   ELSE IF e.decerr # "" THEN "unmarshal-error"
   ELSE IF ~Same(e.dec, e.g) THEN "decode-differs"
+  ELSE IF KnownValid(e.g) /\ e.valerr # "" THEN "validating-reader-rejects-a-valid-geometry"
   \* the same geometry re-encoded by the driver with another byte order per element: the bytes must denote the
   \* same geometry (the specification's reader checks the driver's re-encoding) and the library must read them as such
   ELSE IF ~(LET r2 == Dec(e.bytes2, 1) IN r2.ok /\ Same(r2.g, e.g)) THEN "driver-reencoding-is-wrong"
